@@ -225,9 +225,11 @@ def chk_case(inp, c):
         X1, P1 = np.asarray(f1[0], float), np.asarray(f1[1], float)
         X2, P2 = np.asarray(f2[0], float), np.asarray(f2[1], float)
         st = sorted({str(f.get("status")) for k, f in c.events if k == "solve.status"})
-        if any(x not in ("optimal", "optimal_inaccurate") for x in st):
+        if tight and any(x not in ("optimal", "optimal_inaccurate") for x in st):
+            # only for solver settings chosen by the caller (C04 known finding '...:explicit-solver'); the default
+            # path is solved by Clarabel since repo fix c46726f and is judged whatever its status
             c.cell("solver-stalled")
-            c.unmet("a solve did not converge (C04 known finding: OSQP user_limit)")
+            c.unmet("a solve with caller-chosen high-accuracy settings did not converge (C04 known finding)")
         err1 = np.linalg.norm(P1 - B, axis=1)
         err2 = np.linalg.norm(P2 - B2, axis=1)
         # each twin may be tau_e above its optimum and, because intensities may leave the bounds by tau_b of the
